@@ -628,7 +628,7 @@ func RunSchedInto(rep *Report, id, tier string) {
 			rep.AddViolation(v)
 		}
 		for _, r := range so.Races {
-			v := V("no-data-race", "race:"+r, "the race detector reported a data race while exploring %s: %s", sc.Name, r)
+			v := V("no-data-race", "race:"+strings.ReplaceAll(r, " ", "_"), "the race detector reported a data race while exploring %s: %s", sc.Name, r)
 			v.Conf = sc.Name
 			v.History = sc.stepNames()
 			rep.AddViolation(v)
